@@ -128,6 +128,7 @@ fn dump_crate<'tcx>(tcx: TyCtxt<'tcx>) -> J {
     }
 
     let mut bodies = Vec::new();
+    let mut ext_enum_ids: Vec<DefId> = Vec::new();
     let mut keys: Vec<LocalDefId> = tcx.mir_keys(()).iter().copied().collect();
     keys.sort_by_key(|k| tcx.def_path_str(k.to_def_id()));
     for ldid in keys {
@@ -139,10 +140,38 @@ fn dump_crate<'tcx>(tcx: TyCtxt<'tcx>) -> J {
                     fns_sig.push(dump_sig(tcx, did));
                 }
                 let body = tcx.optimized_mir(did);
+                // enums of other crates whose discriminant this body reads (variant names for the rules)
+                for bbd in body.basic_blocks.iter() {
+                    for st in &bbd.statements {
+                        if let rustc_middle::mir::StatementKind::Assign(b) = &st.kind {
+                            if let Rvalue::Discriminant(pl) = &b.1 {
+                                let t = pl.ty(&body.local_decls, tcx).ty;
+                                if let ty::Adt(def, _) = t.kind() {
+                                    if def.is_enum() && !def.did().is_local() && !ext_enum_ids.contains(&def.did()) {
+                                        ext_enum_ids.push(def.did());
+                                    }
+                                }
+                            }
+                        }
+                    }
+                }
                 bodies.push(dump_body(tcx, did, body));
             }
             _ => {}
         }
+    }
+    let mut ext_enums = Vec::new();
+    for did in ext_enum_ids {
+        let def = tcx.adt_def(did);
+        let mut variants = Vec::new();
+        for (vi, v) in def.variants().iter_enumerated() {
+            variants.push(J::obj(vec![
+                ("name", J::s(v.name.to_string())),
+                ("idx", J::Int(vi.as_u32() as i128)),
+                ("discr", J::s(format!("{}", def.discriminant_for_variant(tcx, vi).val))),
+            ]));
+        }
+        ext_enums.push(J::obj(vec![("path", J::s(def_path(tcx, did))), ("variants", J::Arr(variants))]));
     }
 
     let unsafe_count = count_unsafe(tcx);
@@ -153,6 +182,7 @@ fn dump_crate<'tcx>(tcx: TyCtxt<'tcx>) -> J {
         ("target_kind", J::s(crate_kind(tcx).to_string())),
         ("unsafe", unsafe_count),
         ("adts", J::Arr(adts)),
+        ("ext_enums", J::Arr(ext_enums)),
         ("impls", J::Arr(impls)),
         ("traits", J::Arr(traits)),
         ("consts", J::Arr(consts)),
